@@ -1,3 +1,4 @@
+mod cases;
 mod prog;
 mod proto;
 mod seq;
@@ -110,6 +111,54 @@ fn main() {
             }
             out.flush().unwrap();
             println!("{{\"streams\": {}, \"universes\": {}, \"events\": {}, \"maxcap\": {}}}", streams.len(), universes, events, maxcap);
+        }
+        "run-cases" => {
+            // TLC-generated (stream, cut, reads) cases of the Wire model, at the decoder and/or over a socket
+            let mode = get("mode", "wire");
+            let limit: u32 = get("limit", "64").parse().unwrap();
+            let base: u16 = get("port", "23000").parse().unwrap();
+            let f = BufReader::new(File::open(get("cases", "cases.json")).unwrap());
+            let mut out = BufWriter::new(File::create(get("out", "cases.ndjson")).unwrap());
+            let mut n = 0;
+            let mut ran = 0;
+            let mut maxcap = 0usize;
+            let srv = if mode == "tcp" {
+                tcp::install_hook();
+                Some(tcp::start_server(tcp::free_port(base), "none", 0, limit, 64, 5, 2))
+            } else {
+                None
+            };
+            for line in f.lines() {
+                let line = line.unwrap();
+                if line.trim().is_empty() {
+                    continue;
+                }
+                n += 1;
+                let v: serde_json::Value = serde_json::from_str(&line).expect("bad case line");
+                let c = cases::concretise(&v, limit, n);
+                let bytes = c.stream.bytes();
+                let mut ev = wire::stream_event(n, &c.stream, bytes.len());
+                ev["expect"] = serde_json::json!({"exec": c.expect_exec,
+                    "resp": c.expect_resp.iter().map(|(o, k)| serde_json::json!([o, k])).collect::<Vec<_>>(), "cut": c.cut});
+                if mode == "wire" {
+                    if c.has_over {
+                        continue;
+                    }
+                    writeln!(out, "{}", ev).unwrap();
+                    // the client stops at `cut`: only that prefix is ever fed
+                    let upto = std::cmp::min(c.cut, bytes.len());
+                    wire::run_universe(&bytes[..upto], &c.chunks, limit, 1, &mut out, &mut maxcap);
+                    ran += 1;
+                } else {
+                    writeln!(out, "{}", ev).unwrap();
+                    let srv = srv.as_ref().unwrap();
+                    let upto = std::cmp::min(c.cut, bytes.len());
+                    tcp::run_cut_universe(srv, &bytes[..upto], &c.chunks, 1, upto == bytes.len(), &mut out);
+                    ran += 1;
+                }
+            }
+            out.flush().unwrap();
+            println!("{{\"cases\": {}, \"ran\": {}, \"maxcap\": {}}}", n, ran, maxcap);
         }
         "tcp-wire" => {
             // frame streams over a socket, every stream under many segmentations
